@@ -1,12 +1,14 @@
 //go:build verif
 
 // C20 harness: Velocity modern forwarding.
-//   neg    the real findForwardingVersion for requested 0..255 x every supported protocol x key revision
-//   fwd    forwarding payloads: (live) a fake Paper backend requests forwarding from the live proxy in
-//          velocity mode and records the login plugin response; (shim) CreateForwardingData for fake
-//          players that carry keys. Each payload is MAC-checked with crypto/hmac and parsed by a parser
-//          written after Paper's VelocityProxy; both results are only logged.
-//   noreq  a backend that sends login success without requesting forwarding.
+//
+//	neg    the real findForwardingVersion for requested 0..255 x every supported protocol x key revision
+//	fwd    forwarding payloads: (live) a fake Paper backend requests forwarding from the live proxy in
+//	       velocity mode and records the login plugin response; (shim) CreateForwardingData for fake
+//	       players that carry keys. Each payload is MAC-checked with crypto/hmac and parsed by a parser
+//	       written after Paper's VelocityProxy; both results are only logged.
+//	noreq  a backend that sends login success without requesting forwarding.
+//
 // Forwarding_Trace.tla judges every line.
 package c20
 
@@ -73,7 +75,9 @@ type keyRec struct {
 	Holder []int `json:"holder"` // 16 bytes or empty
 }
 
-func noKey() keyRec { return keyRec{Expiry: []int{0, 0, 0, 0}, Pub: []int{}, Sig: []int{}, Holder: []int{}} }
+func noKey() keyRec {
+	return keyRec{Expiry: []int{0, 0, 0, 0}, Pub: []int{}, Sig: []int{}, Holder: []int{}}
+}
 
 func limbs(v int64) []int {
 	var b [8]byte
